@@ -110,11 +110,22 @@ Check ==
                  THEN { [expr |-> Render(e[2]), adm |-> {ReBigExpected(e[1], BigG)}, doc |-> ReBigDoc(BigG)] : e \in ReBigExprs } ELSE {}
       case  == [p |-> Prop, kind |-> "search", doc |-> doc,
                 multi |-> { [expr |-> c.expr, adm |-> c.adm, doc |-> doc] : c \in cases } \cup recases]
+      \* the array of the bare keys, sorted by the identity key: numbers that are equal in value are told apart
+      \* by the harness through their SPELLING (1, 1.0, 1e0, 10e-1 by position), which the specification's
+      \* values do not carry; what the specification supplies is the stable ORDER, as a permutation of positions
+      nums  == [j \in 1..inst.n |-> KeyNum(inst.n, inst.pat, inst.seed, j) - 3]
+      perm  == SetToSortSeq(1..inst.n, LAMBDA a, b : nums[a] < nums[b] \/ (nums[a] = nums[b] /\ a < b))
+      spelled == [p |-> Prop, kind |-> "spelled", vals |-> nums, perm |-> perm,
+                  exprs |-> << Render(Fn(<<115,111,114,116,95,98,121>>, <<X, Comma, AmpT, CurT>>)), Render(Fn(<<115,111,114,116,95,98,121>>, <<X, LB, Star, RB, Comma, AmpT, LP, CurT, RP>>)),
+                              Render(Fn(<<115,111,114,116,95,98,121>>, <<X, Comma, AmpT, CurT, PlusT, Json(<<96,48,96>>)>>)) >>]
       vals  == ArrOf(inst).a
       keys  == [j \in 1..Len(vals) |-> ObjGet(vals[j], <<107>>)]
       out   == SortByKeys(vals, keys)
       pos(v) == CHOOSE j \in 1..Len(vals) : vals[j] = v          \* payloads are unique
   IN /\ Emit => PrintT("CASE " \o ToJson(case))
+     /\ (Emit /\ ~inst.str /\ inst.n > 0) => PrintT("CASE " \o ToJson(spelled))
+     /\ Named(inst.str \/ Admissible(Fn(<<115,111,114,116,95,98,121>>, <<X, Comma, AmpT, CurT>>), Obj(<<Mem(<<120>>, Arr([j \in 1..inst.n |-> JInt(nums[j])]))>>))
+                            = {Arr([j \in 1..inst.n |-> JInt(nums[perm[j]])])}, "PermIsTheStableOrder")
      \* the defining predicate of a stable sort
      /\ Named(\A c \in recases : \A o \in c.adm : IsVal(o), "ReentrantFamilyIsWellTyped")
      /\ Named((inst.n = 0 /\ inst.pat = 2 /\ ~inst.str) =>
